@@ -57,6 +57,7 @@ type Report struct {
 	Extra       map[string]any
 	known       []Finding
 	usedKnown   map[int]bool
+	scope       func(rule, construct string) bool
 }
 
 func NewReport(prop, tier string, seed int, knownPath string) (*Report, error) {
@@ -79,19 +80,43 @@ func NewReport(prop, tier string, seed int, knownPath string) (*Report, error) {
 	return r, nil
 }
 
+// Scoped runs f with only the obligations for which keep returns true being recorded: a rule family
+// shared with another property contributes to this property only the constructs that are a
+// necessary condition of *this* property. Inside the scope instance floors are reduced to "at least
+// one kept instance".
+func (r *Report) Scoped(keep func(rule, construct string) bool, f func()) {
+	saved := r.scope
+	r.scope = keep
+	defer func() { r.scope = saved }()
+	f()
+}
+
+func (r *Report) dropped(rule, construct string) bool {
+	return r.scope != nil && !r.scope(rule, construct)
+}
+
 // OK records a discharged obligation.
 func (r *Report) OK(rule, construct, pos, detail string) {
+	if r.dropped(rule, construct) {
+		return
+	}
 	r.RuleCount[rule]++
 	r.Obls = append(r.Obls, Obligation{rule, construct, pos, "OK", detail})
 }
 
 // Info records an information-only line (never affects the verdict).
 func (r *Report) Info(rule, construct, pos, detail string) {
+	if r.dropped(rule, construct) {
+		return
+	}
 	r.Obls = append(r.Obls, Obligation{rule, construct, pos, "INFO", detail})
 }
 
 // Fail records a violated obligation; if it is listed in known_findings it is downgraded.
 func (r *Report) Fail(rule, construct, pos, detail string) {
+	if r.dropped(rule, construct) {
+		return
+	}
 	r.RuleCount[rule]++
 	st := "VIOLATION"
 	for i, k := range r.known {
@@ -117,7 +142,12 @@ func (r *Report) Check(cond bool, rule, construct, pos, okDetail, failDetail str
 }
 
 // Floor demands at least n instances (OK or failed) of a rule.
-func (r *Report) Floor(rule string, n int) { r.Floors[rule] = n }
+func (r *Report) Floor(rule string, n int) {
+	if r.scope != nil && n > 1 {
+		n = 1
+	}
+	r.Floors[rule] = n
+}
 
 func (r *Report) Func(name string) { r.Funcs[name] = true }
 
